@@ -15,8 +15,9 @@ import (
 var _ = packet.NewPuback
 
 type step struct {
-	kind string // in | inerr | deq | ack | ackall | close | settle | reconnect | drain | react
+	kind string // in | inerr | deq | ack | ackall | close | settle | reconnect | drain | react | idle
 	name string // react: the new mode
+	wait time.Duration // idle: how long the peer stays silent at most
 	pkt  packet.Generic
 	msg  *packet.Message
 	k    int
@@ -42,6 +43,12 @@ type scenario struct {
 	noSettle     bool   // pipelined: do not wait between steps
 	closeOnRx    int    // Client.Close() is called from outside after the n-th packet was read, before it is handled
 	react        string // reactive subscriber: acknowledges what it actually receives: immediate | batched | reverse | slow
+	// the subscriber acknowledges everything it receives by the end of the script: every queued message must have been
+	// delivered, and the connection is reported quiescent at the end even if the dequeuer is not inside Dequeue
+	expectDrained bool
+	defaults      bool          // the backend configures no limits: the documented defaults apply
+	maxKA         time.Duration // MaximumKeepAlive set by the backend during Setup
+	wantTimeout   time.Duration // the read timeout the broker must have armed after an accepted CONNECT (0 = not checked)
 }
 
 func (sc *scenario) text() string {
@@ -62,6 +69,15 @@ func (sc *scenario) text() string {
 	if sc.queueFull {
 		qf = "(queue-full)"
 	}
+	if sc.expectDrained {
+		qf += "(drained)"
+	}
+	if sc.defaults {
+		qf += "(defaults)"
+	}
+	if sc.maxKA > 0 || sc.wantTimeout > 0 {
+		qf += fmt.Sprintf("(maxka=%v,want=%v)", sc.maxKA, sc.wantTimeout)
+	}
 	return fmt.Sprintf("%s/%s mode=%d w=%d fs=%v ff=%v fsess=%v fcall=%v%s cor=%d react=%s [%s]", sc.family, sc.name, sc.mode, sc.w, sc.failSend, sc.failFrom,
 		sc.failSess, sc.failCall, qf, sc.closeOnRx, sc.react, strings.Join(parts, " "))
 }
@@ -70,6 +86,7 @@ type result struct {
 	lines    []string
 	watchdog bool
 	peerGot  [][]packet.Generic // per connection: packets the peer received
+	direct   []string           // clauses evaluated by the harness itself: "<name> ok|FAIL <details>"
 }
 
 const settleQuiet = 1500 * time.Microsecond
@@ -109,6 +126,8 @@ func runScenario(orig *scenario) *result {
 	b.restoreFail = sc.restoreFail
 	b.resumed = sc.resumed
 	b.pubErrQueueFull = sc.queueFull
+	b.defaults = sc.defaults
+	b.maxKA = sc.maxKA
 	for k, v := range sc.failCall {
 		b.failCall[k] = v
 	}
@@ -162,6 +181,30 @@ func runScenario(orig *scenario) *result {
 	}
 	acked := map[int]bool{} // ids fully acknowledged by the reactive peer (per connection)
 	recd := map[int]bool{}  // ids for which PUBREC was sent
+	// what the reactive peer has received on this connection and not yet answered
+	unanswered := func() (pend []*packet.Publish, rels []int) {
+		for _, p := range conn.sentCopy() {
+			switch v := p.(type) {
+			case *packet.Publish:
+				if v.Message.QOS > 0 && !acked[int(v.ID)] && !recd[int(v.ID)] {
+					dupSeen := false
+					for _, q := range pend {
+						if q.ID == v.ID {
+							dupSeen = true
+						}
+					}
+					if !dupSeen {
+						pend = append(pend, v)
+					}
+				}
+			case *packet.Pubrel:
+				if !acked[int(v.ID)] {
+					rels = append(rels, int(v.ID))
+				}
+			}
+		}
+		return
+	}
 	reactOnce := func() bool {
 		if sc.react == "" || sc.react == "none" {
 			return false
@@ -258,6 +301,22 @@ func runScenario(orig *scenario) *result {
 			open()
 		case "react":
 			sc.react = st.name
+		case "idle":
+			// the peer stays silent until the broker's read timeout strikes (keep-alive expiry)
+			deadline := time.Now().Add(st.wait)
+			for time.Now().Before(deadline) {
+				conn.mu.Lock()
+				done := conn.expired || conn.closed
+				conn.mu.Unlock()
+				if done {
+					break
+				}
+				time.Sleep(time.Millisecond)
+			}
+			conn.mu.Lock()
+			exp := conn.expired
+			conn.mu.Unlock()
+			res.direct = append(res.direct, fmt.Sprintf("c12_keepalive_expiry %s the connection of a silent client is ended by the read timeout (expired=%v within %v)", okFail(exp), exp, st.wait))
 		case "drain":
 			// the reactive peer keeps acknowledging until nothing is left to acknowledge
 			for i := 0; i < 400; i++ {
@@ -288,12 +347,41 @@ func runScenario(orig *scenario) *result {
 		calm := func() bool { return conn.consumed() && !conn.consumedClosed() && b.dequeuerBlocked() }
 		if calm() && l.settle(calm, 6*settleQuiet, time.Hour, settleMax) && calm() {
 			l.addIf(calm, "Quiescent")
+		} else if sc.expectDrained {
+			// everything the subscriber received is acknowledged, the processor is back in Receive and nothing has moved
+			// for a long while: the connection is quiescent whatever the dequeuer is doing (if it waits for a window slot
+			// or has gone, the monitor and c16_quiescent_dequeuing reject the marker)
+			still := func() bool {
+				pend, rels := unanswered()
+				return conn.consumed() && !conn.consumedClosed() && len(pend) == 0 && len(rels) == 0
+			}
+			if l.settle(func() bool { return false }, time.Hour, 3*settleBlocked, settleMax) && still() {
+				l.addIfQuiet(still, "Quiescent", 2*settleBlocked)
+			}
 		}
+		if sc.expectDrained {
+			n := len(b.queue)
+			res.direct = append(res.direct, fmt.Sprintf("c16_drained %s every queued message has been delivered to a subscriber that acknowledged everything it received (still queued: %d)", okFail(n == 0), n))
+		}
+	}
+	if sc.wantTimeout > 0 {
+		conn.mu.Lock()
+		tos := append([]time.Duration(nil), conn.readTimeouts...)
+		conn.mu.Unlock()
+		ok := len(tos) > 0 && tos[len(tos)-1] == sc.wantTimeout
+		res.direct = append(res.direct, fmt.Sprintf("c12_keepalive_armed %s read timeout armed after CONNECT: %v, want %v (1.5 x the effective keep alive)", okFail(ok), tos, sc.wantTimeout))
 	}
 	finish()
 	b.wg.Wait()
 	res.lines = l.snapshot()
 	return res
+}
+
+func okFail(b bool) string {
+	if b {
+		return "ok"
+	}
+	return "FAIL"
 }
 
 func hxPkt(p packet.Generic) string {
